@@ -45,6 +45,7 @@ MUTANTS = {
         {"id": "wide-allocation", "file": HDR, "old": "    let mut vector = vec![0u8; length as usize];", "new": "    let mut vector = vec![0u8; (length as usize) << 24];", "rule": "C06-P3"},
     ],
     "C07": [
+        {"id": "suspend-drops-source-handle", "file": S, "old": "        self.timer.ack.pause();\n        self.timer.inactivity.pause();\n        self.state = TransactionState::Suspended;\n", "new": "        self.timer.ack.pause();\n        self.timer.inactivity.pause();\n        self.file_handle = None;\n        self.state = TransactionState::Suspended;\n", "rule": "C07-S12"},
         {"id": "length-from-other-flag", "file": S, "old": "        let payload = PDUPayload::FileData(data);\n\n        let payload_len: u16 = payload.encoded_len(self.config.file_size_flag);", "new": "        let payload = PDUPayload::FileData(data);\n\n        let payload_len: u16 = payload.encoded_len(cfdp_core::pdu::FileSizeFlag::Small);", "rule": "C07-S1"},
         {"id": "no-cursor-restore", "file": S, "old": "                        handle\n                            .seek(SeekFrom::Start(current_pos))\n                            .map_err(FileStoreError::IO)?;\n                        Ok(())", "new": "                        let _ = (handle, current_pos);\n                        Ok(())", "rule": "C07-S3"},
         {"id": "eof-size-from-progress", "file": S, "old": "                file_size: self.metadata.file_size,\n                fault_location,", "new": "                file_size: self.sent_file_size,\n                fault_location,", "rule": "C07-S5"},
@@ -59,6 +60,7 @@ MUTANTS = {
         {"id": "marker-without-test", "file": R, "old": "        if self.metadata.is_none() {\n            naks.push_back((0_u64, 0_u64).into());\n        }", "new": "        naks.push_back((0_u64, 0_u64).into());", "rule": "C08-N1"},
     ],
     "C09": [
+        {"id": "count-decides-completeness", "file": R, "old": "                !self.saved_segments.is_complete(file_size)\n", "new": "                self.received_file_size < file_size\n", "rule": "C09-G10"},
         {"id": "overlap-dropped", "file": SEG, "old": "                                    v[k - 1].1 = seg.1;\n                                    newly_received -= merge(v, k - 1);", "new": "                                    v[k - 1].1 = seg.1;\n                                    merge(v, k - 1);", "rule": "C09-G1"},
         {"id": "complete-ignores-start", "file": SEG, "old": "            [(start, end)] => *start == 0 && *end == size,", "new": "            [(_start, end)] => *end == size,", "rule": "C09-G2"},
         {"id": "early-window-push", "file": SEG, "old": "            if *s >= end {\n                // the rest of the window, if any, is pushed after the loop\n                break;", "new": "            if *s >= end {\n                gaps.push((pointer, end));\n                pointer = end;\n                break;", "rule": "C09-G3"},
@@ -66,6 +68,7 @@ MUTANTS = {
         {"id": "no-clamp", "file": SEG, "old": "                    std::cmp::max(v[k - 1].1, start)", "new": "                    v[k - 1].1", "rule": "C09-G5"},
     ],
     "C10": [
+        {"id": "cancel-ignored-when-finished", "file": R, "old": "        debug!(\"Transaction {0} canceling.\", self.id());\n        self.condition = Condition::CancelReceived;\n", "new": "        if self.recv_state == RecvState::Finished {\n            return Ok(());\n        }\n        self.condition = Condition::CancelReceived;\n", "rule": "C10-K11"},
         {"id": "cancelled-runs-handler", "file": S, "old": "            SendState::Cancelled => {\n                if self.timer.inactivity.limit_reached() {\n                    self.abandon();\n                }", "new": "            SendState::Cancelled => {\n                if self.timer.inactivity.limit_reached() {\n                    self.handle_fault(Condition::InactivityDetected)?;\n                }", "rule": "C10-K4"},
         {"id": "finalize-after-cancel", "file": R, "old": "        if self.recv_state == RecvState::ReceiveData\n            && self.metadata.is_some()\n            && self.eof_received()", "new": "        if self.recv_state != RecvState::Finished\n            && self.metadata.is_some()\n            && self.eof_received()", "rule": "C04-F"},
         {"id": "error-eof-finalizes", "file": R, "old": "                                } else {\n                                    // Any other condition is essentially a\n                                    // CANCEL operation\n                                    self._cancel();\n                                }\n                                Ok(())", "new": "                                } else {\n                                    self.check_finished()?;\n                                }\n                                Ok(())", "rule": "C10-K3"},
@@ -119,6 +122,7 @@ MUTANTS = {
         {"id": "unack-acks-eof", "file": R, "old": "                                self.condition = eof.condition;\n                                self.checksum = Some(eof.checksum);\n\n                                self.send_indication(Indication::EoFRecv(self.id()));\n\n                                if self.condition == Condition::NoError {\n                                    let carry_on = self.check_file_size(eof.file_size)?;\n                                    self.file_size = Some(eof.file_size);\n                                    // a file size fault", "new": "                                self.condition = eof.condition;\n                                self.prepare_ack_eof();\n                                self.checksum = Some(eof.checksum);\n\n                                self.send_indication(Indication::EoFRecv(self.id()));\n\n                                if self.condition == Condition::NoError {\n                                    let carry_on = self.check_file_size(eof.file_size)?;\n                                    self.file_size = Some(eof.file_size);\n                                    // a file size fault", "rule": "C18-U1"},
     ],
     "C19": [
+        {"id": "suspend-keeps-ack-timer", "file": R, "old": "        self.timer.ack.pause();\n        self.timer.nak.pause();\n        self.timer.inactivity.pause();\n        self.state = TransactionState::Suspended;\n", "new": "        if self.config.transmission_mode == TransmissionMode::Acknowledged {\n            self.timer.ack.pause();\n        }\n        self.timer.nak.pause();\n        self.timer.inactivity.pause();\n        self.state = TransactionState::Suspended;\n", "rule": "C19-S"},
         {'id': 'finish-only-when-active', 'file': 'cfdp-daemon/src/transaction/recv.rs', 'old': '        if self.recv_state == RecvState::ReceiveData\n            && self.metadata.is_some()\n            && self.eof_received()', 'new': '        if self.recv_state == RecvState::ReceiveData\n            && self.state == TransactionState::Active\n            && self.metadata.is_some()\n            && self.eof_received()', 'rule': 'C19-R'},
         {'id': 'resume-keeps-ack-paused', 'file': 'cfdp-daemon/src/transaction/send.rs', 'old': '            SendState::SendEof | SendState::Cancelled => {\n                self.timer.restart_ack();\n                self.timer.restart_inactivity();', 'new': '            SendState::SendEof | SendState::Cancelled => {\n                self.timer.restart_inactivity();', 'rule': 'C19-D'},
         {"id": "resume-bare-start", "file": R, "old": "            RecvState::Finished | RecvState::Cancelled => self.timer.reset_ack(),\n        }\n        self.state = TransactionState::Active;", "new": "            RecvState::Finished | RecvState::Cancelled => self.timer.ack.start(),\n        }\n        self.state = TransactionState::Active;", "rule": "C19-C"},
